@@ -133,7 +133,7 @@ def run(ctx, rep):
         rep.analysed[f'{fs}:bodies_total'] = len(prog.bodies)
         rep.analysed[f'{fs}:callback_roots'] = cb
         sites = collect_sites(prog, reach)
-        rep.floor('P1', f'{fs}: panic-capable sites in reachable code', len(sites), 30)
+        rep.floor('P1', f'{fs}: panic-capable sites in reachable code', len(sites), 15)
         total_sites += len(sites)
         # first reaching node per body for paths
         first = {}
